@@ -26,11 +26,22 @@ ALPH = {
     ("state", "expect"): ("Idle", ("Busy", "Ok", "Alert"), "Busy"),
     ("state", "initial"): ("Idle", ("Ok", "Busy", "Alert"), "Ok"),
     ("state", "check"): ("Idle", ("Alert", "Busy", "Ok"), None),
+    # "elem": a wait filtered on an ELEMENT with the default event type, on a stream that mixes value updates with
+    # state-only updates ("s:<state>") of the same property.  Only the element's value updates may complete it - a
+    # vector-level event belongs to no element - although a state may equal the expected value ("Busy") and always
+    # differs from the initial one.
+    ("elem", "expect"): ("X", ("Busy", "N", "s:Busy", "s:Alert"), "Busy"),
+    ("elem", "initial"): ("I", ("A", "B", "s:Busy", "s:Alert"), "I"),
+    ("elem", "check"): ("X", ("M1", "N", "s:Busy", "s:Alert"), None),
 }
 
 
 def matches(kind, cond, v):
     start, alph, param = ALPH[(kind, cond)]
+    if kind == "elem":
+        if v.startswith("s:"):
+            return False
+        kind = "value"
     if cond == "expect":
         return v == param
     if cond == "initial":
@@ -53,12 +64,22 @@ def event_sets(kind, cond, nmax, grid):
         for times in itertools.combinations_with_replacement(grid, n):
             for vals in itertools.product(alph, repeat=n):
                 prev = start
+                state = "Ok"
                 ok = True
                 for v in vals:
+                    if v.startswith("s:"):
+                        # a state-only update must change the state (else it raises no event at all)
+                        if v[2:] == state:
+                            ok = False
+                            break
+                        state = v[2:]
+                        continue
                     if v == prev:
                         ok = False
                         break
                     prev = v
+                    if kind == "elem":
+                        state = "Ok"  # value updates carry state Ok
                 if ok:
                     yield tuple(zip(times, vals))
 
@@ -74,10 +95,12 @@ def wait_kwargs(kind, cond, T, polling):
     if kind == "value":
         kw["element"] = "a"
         kw["event_type"] = CE.ValueUpdate
+    elif kind == "elem":
+        kw["element"] = "a"  # default event_type
     else:
         kw["event_type"] = CE.StateUpdate
     if cond == "check":
-        if kind == "value":
+        if kind in ("value", "elem"):
             kw["check"] = lambda ev: ev.new_value.startswith("M")
         else:
             kw["check"] = lambda ev: ev.new_state in ("Alert", "Busy")
@@ -109,9 +132,16 @@ def execute(p, ch=None):
         kind = p["kind"]
         start = ALPH[(kind, p["cond"])][0]
         st0 = start if kind == "state" else "Ok"
-        v0 = start if kind == "value" else "v"
+        v0 = start if kind in ("value", "elem") else "v"
         client.process_message(M.DefTextVector(device="D", name="V", state=st0, perm="rw", children=[def_parts.DefText(name="a", value=v0)]))
         obs["sent"].clear()
+        if p.get("raiser"):
+            # a listener registered BEFORE the waits whose callback fails on every event: the waits must not notice
+
+            def failing_listener(ev):
+                raise RuntimeError("listener failed")
+
+            client.onevent(device="D", callback=failing_listener)
         base = len(client.callbacks)
         specs = [(p["cond"], p["T"], p["polling"])]
         if p.get("second"):
@@ -123,7 +153,7 @@ def execute(p, ch=None):
             async def runner(rec=rec, cond=cond, T=T, polling=polling):
                 try:
                     ev = await client.waitforevent(**wait_kwargs(kind, cond, T, polling))
-                    if kind == "value":
+                    if kind in ("value", "elem"):
                         rec["done"] = ("event", getattr(ev, "old_value", "?"), getattr(ev, "new_value", "?"), loop.time())
                     else:
                         rec["done"] = ("event", getattr(ev, "old_state", "?"), getattr(ev, "new_state", "?"), loop.time())
@@ -133,7 +163,9 @@ def execute(p, ch=None):
             loop.create_task(runner())
 
         def mk(v):
-            if kind == "value":
+            if v.startswith("s:"):
+                return M.SetTextVector(device="D", name="V", state=v[2:])
+            if kind in ("value", "elem"):
                 return M.SetTextVector(device="D", name="V", state="Ok", children=[one_parts.OneText(name="a", value=v)])
             return M.SetTextVector(device="D", name="V", state=v)
 
@@ -184,7 +216,8 @@ def expected(kind, cond, T, events):
         if matches(kind, cond, v):
             first = (t, prev, v)
             break
-        prev = v
+        if not v.startswith("s:"):
+            prev = v
     if T is not None and T > 0:
         if first is not None and first[0] < T:
             return ("event", first[1], first[2]), first[0]
@@ -278,13 +311,16 @@ def judge(p, obs):
 
 def shards(tier, seed):
     sh = []
-    for kind in ("value", "state"):
+    for kind in ("value", "state", "elem"):
         for cond in CONDS:
             for T in timeouts():
+                if kind == "elem" and T in (0, 1, 3):
+                    continue
                 sh.append((tier, "grid", kind, cond, T))
-    for kind in ("value", "state"):
+    for kind in ("value", "state", "elem"):
         for cond in CONDS:
-            sh.append((tier, "dev", kind, cond))
+            if kind != "elem":
+                sh.append((tier, "dev", kind, cond))
             sh.append((tier, "two", kind, cond))
     return sh
 
@@ -352,9 +388,9 @@ def run_shard(shard):
                     if ALPH[(kind, cond2)][1] != ALPH[(kind, cond)][1] and cond2 != cond:
                         # the second wait must understand the same value alphabet: use predicates only
                         pass
-                    for T2 in (1, 3):
-                        for pol2 in (None, (1, 2)):
-                            p = dict(kind=kind, cond=cond, T=T, polling=(1, 1), events=evs, burst="same-callback", second=(cond, T2, pol2))
+                    for T2, pol2, raiser in ((1, None, False), (1, (1, 2), False), (3, None, False), (3, (1, 2), False), (3, None, True), (1, (1, 2), True)):
+                        if True:
+                            p = dict(kind=kind, cond=cond, T=T, polling=(1, 1), events=evs, burst="same-callback", second=(cond, T2, pol2), raiser=raiser)
                             obs = execute(p)
                             res["schedules"] += 1
                             res["transitions"] += 1 + len(evs)
